@@ -18,6 +18,7 @@ CONSTANTS
   MaxForce = 2
   MaxLag = 4
   MaxProbes = 3
+  MaxReorg = 2
   ExportOn = TRUE
   SampleMod = 1
 INIT Init
